@@ -39,6 +39,7 @@ structure Checks where
   state : Store String → String → Option String := fun _ _ => none
   ancestors : Store String → String → String → Option String := fun _ _ _ => none
   common : Store String → List String → Option String := fun _ _ => none
+  verify : Store String → Int → List (String × Int) → Option String := fun _ _ _ => none
 
 /-- the hand model's answer, unless the generated code disagrees -/
 def genCheck (d : Option String) (out : String) : String :=
@@ -114,11 +115,11 @@ def handleWith (ck : Checks) (st : S) : List String → Option (S × String)
     match excess.toInt?, items.mapM parseItem with
     | some e, some req =>
       match verify st.store e req with
-      | none => some (st, "err:tipheight")
+      | none => some (st, genCheck (ck.verify st.store e req) "err:tipheight")
       | some res =>
         let agg := aggregate (res.map (fun x => x.2.2.1))
-        some (st, verdictName agg ++ ";" ++ ";".intercalate (res.map fun (root, h, v, hash) =>
-          s!"{root}:{h}:{verdictName v}:{hash.getD "-"}"))
+        some (st, genCheck (ck.verify st.store e req) (verdictName agg ++ ";" ++ ";".intercalate (res.map fun (root, h, v, hash) =>
+          s!"{root}:{h}:{verdictName v}:{hash.getD "-"}")))
     | _, _ => some (st, "bad-args")
   | ["roots", n, key] =>
     match n.toNat? with
